@@ -43,6 +43,11 @@ CLOCK_FILES = [
 # additionally redirect time.Sleep / time.After-free waiting loops in these
 SLEEP_FILES = []
 
+# files compiled from a copy with `//go:nocheckptr` put on one function: -race implies checkptr, and
+# the vendored sha3 code casts a 136-byte block to a 168-byte array (never read beyond the block;
+# process-fatal under checkptr, which would make every race job impossible)
+NOCHECKPTR = [("crypto/sha3/xor_unaligned.go", r"^func xorInUnaligned\(")]
+
 # (file, regex to find the line AFTER which the point is inserted, point name)
 DELAY_POINTS = [
     ("protocol/pushpull.go", r"^\s*m\.makeRequest\(id, hash\)\s*$", "pushpull.afterMakeRequest", "after"),
@@ -135,6 +140,20 @@ def gen_overlay(notes, bdir, pid=""):
         with open(dst, "w") as f:
             f.write(src)
         repl[p] = dst
+    for rel, pat in NOCHECKPTR:
+        p = os.path.join(REPO, rel)
+        if not os.path.exists(p):
+            continue
+        lines = open(p).read().split("\n")
+        hit = [i for i, l in enumerate(lines) if re.match(pat, l)]
+        if len(hit) != 1 or "go:nocheckptr" in "\n".join(lines):
+            continue
+        lines.insert(hit[0], "//go:nocheckptr")
+        dst = os.path.join(rw, rel)
+        os.makedirs(os.path.dirname(dst), exist_ok=True)
+        with open(dst, "w") as f:
+            f.write("\n".join(lines))
+        repl[p] = dst
     tree = os.path.join(VERIF, "overlay/tree")
     for root, _, fs in os.walk(tree):
         for fn in fs:
@@ -224,7 +243,7 @@ def parse_race_log(text):
         for sec in re.split(r"(?m)^(?=(?:Previous )?(?:[Rr]ead|[Ww]rite) at |Previous (?:atomic )?)", b):
             if not re.match(r"(?:Previous )?(?:atomic )?(?:[Rr]ead|[Ww]rite) at", sec):
                 continue
-            m = re.findall(r"(?m)^  ([^\s(]+)\(.*\)\n\s+(\S+?):\d+", sec)
+            m = re.findall(r"(?m)^  (\S+?)\(\)\n\s+(\S+?):\d+", sec)
             fr = None
             for fn, path in m:
                 if "/runtime/" in path or fn.startswith("runtime.") or fn.startswith("sync.") or fn.startswith("sync/atomic."):
